@@ -309,6 +309,12 @@ def cmdCheckStates (a : Args) : String :=
   | .ok (yes, gates) => s!"ok yes={b01 yes} gates={CmdStab.showCirc gates}"
   | .error e => errStr e
 
+/-- `lc_check(state1, graph2, validate)`: a stabilizer tableau (`a…`) and a graph (`n`, `b`) -/
+def cmdCheckStateGraph (a : Args) : String :=
+  match lcCheckStateGraph (CmdStab.stabOf a "a") (graphOf a "b") (get a "validate" ≠ "0") with
+  | .ok (yes, gates) => s!"ok yes={b01 yes} gates={CmdStab.showCirc gates}"
+  | .error e => errStr e
+
 def dispatch (cmd : String) (a : Args) : Option String :=
   match cmd with
   | "graph.lc" => some (cmdLc a)
@@ -337,6 +343,7 @@ def dispatch (cmd : String) (a : Args) : Option String :=
   | "lc.check" => some (cmdCheck a)
   | "lc.converter" => some (cmdConverter a)
   | "lc.checkstates" => some (cmdCheckStates a)
+  | "lc.checkstategraph" => some (cmdCheckStateGraph a)
   | "lc.apply" => some (cmdApply a)
   | _ => none
 
